@@ -66,23 +66,118 @@ theorem copySoupImpl_eq_spec (fresh : TagData) (inh : Option Bool) (next : Nat) 
   rw [run_forest]
   simp [collapse, Frame.close]
 
+/-! ### the attribute loop on a settled dict -/
+
+/-- what the attribute loop does when nothing is processed away: lists re-created, everything else stored as it is -/
+def copyAttrsPlain (next : Nat) : Attrs → Attrs × Nat
+  | [] => ([], next)
+  | (k, m, .list _ c items) :: r => let q := copyAttrsPlain (next + 1) r; ((k, m, .list next c items) :: q.1, q.2)
+  | (k, m, v) :: r => let q := copyAttrsPlain next r; ((k, m, v) :: q.1, q.2)
+
+theorem settled_cons {cls : Nat} {e : PStr × AEntry} {r : Attrs} (h : Settled cls (e :: r)) :
+    coerce cls e.1 e.2.1 e.2.2 = some e.2.2 ∧ Settled cls r :=
+  ⟨h e (List.mem_cons_self ..), fun x hx => h x (List.mem_cons_of_mem _ hx)⟩
+
+theorem copyAttrs_settled (cls n : Nat) (l : Attrs) (h : Settled cls l) : copyAttrs cls n l = copyAttrsPlain n l := by
+  induction l generalizing n with
+  | nil => simp [copyAttrs, copyAttrsPlain]
+  | cons e r ih =>
+    obtain ⟨k, m, v⟩ := e
+    obtain ⟨h1, h2⟩ := settled_cons h
+    simp only [] at h1
+    cases v with
+    | list lid c items => simp [copyAttrs, copyAttrsPlain, ih _ h2]
+    | str c s => simp only [copyAttrs, copyAttrsPlain, ih _ h2, h1, pushEntry]
+    | int x => simp only [copyAttrs, copyAttrsPlain, ih _ h2, h1, pushEntry]
+    | bool b => simp only [copyAttrs, copyAttrsPlain, ih _ h2, h1, pushEntry]
+    | none => simp only [copyAttrs, copyAttrsPlain, ih _ h2, h1, pushEntry]
+
+/-- a plain `AttributeDict` (or a custom class without processing) stores whatever it is given -/
+theorem settled_plain (cls : Nat) (l : Attrs) (h1 : cls ≠ 1) (h2 : cls ≠ 2) : Settled cls l := by
+  intro e _
+  simp [coerce, h1, h2]
+
+/-- strings and lists are stored unchanged by every class -/
+theorem coerce_str (cls : Nat) (k : PStr) (m : KMeta) (c : Nat) (s : PStr) : coerce cls k m (.str c s) = some (.str c s) := by
+  simp only [coerce]
+  split
+  · simp [coerceHtml]
+  · split <;> simp [coerceXml]
+
+theorem coerce_list (cls : Nat) (k : PStr) (m : KMeta) (lid c : Nat) (items : List PStr) :
+    coerce cls k m (.list lid c items) = some (.list lid c items) := by
+  simp only [coerce]
+  split
+  · simp [coerceHtml]
+  · split <;> simp [coerceXml]
+
+def AVal.isList : AVal → Bool
+  | .list _ _ _ => true
+  | _ => false
+
+theorem boolName_nonlist (k : PStr) (m : KMeta) : (boolName k m).isList = false := by
+  cases m with
+  | none => simp [boolName, AVal.isList]
+  | some nk =>
+    obtain ⟨p, nm, ns⟩ := nk
+    cases nm <;> simp [boolName, AVal.isList]
+
+theorem coerceHtml_nonlist {k : PStr} {m : KMeta} {v v' : AVal} (h : coerceHtml k m v = some v')
+    (hv : v.isList = false) : v'.isList = false := by
+  cases v with
+  | list lid c items => simp [AVal.isList] at hv
+  | str c s => simp only [coerceHtml, Option.some.injEq] at h; subst h; rfl
+  | int n => simp only [coerceHtml, Option.some.injEq] at h; subst h; rfl
+  | none => simp [coerceHtml] at h
+  | bool b =>
+    cases b with
+    | false => simp [coerceHtml] at h
+    | true => simp only [coerceHtml, Option.some.injEq] at h; subst h; exact boolName_nonlist k m
+
+theorem coerceXml_nonlist {v v' : AVal} (h : coerceXml v = some v') (hv : v.isList = false) : v'.isList = false := by
+  cases v with
+  | list lid c items => simp [AVal.isList] at hv
+  | str c s => simp only [coerceXml, Option.some.injEq] at h; subst h; rfl
+  | int n => simp only [coerceXml, Option.some.injEq] at h; subst h; rfl
+  | none => simp only [coerceXml, Option.some.injEq] at h; subst h; rfl
+  | bool b => simp only [coerceXml, Option.some.injEq] at h; subst h; rfl
+
+/-- no class turns a value that is not a list into a list -/
+theorem coerce_nonlist {cls : Nat} {k : PStr} {m : KMeta} {v v' : AVal} (h : coerce cls k m v = some v')
+    (hv : v.isList = false) : v'.isList = false := by
+  simp only [coerce] at h
+  split at h
+  · exact coerceHtml_nonlist h hv
+  · split at h
+    · exact coerceXml_nonlist h hv
+    · simp only [Option.some.injEq] at h; subst h; exact hv
+
+theorem attrIds_pushEntry (k : PStr) (m : KMeta) (ov : Option AVal) (q : Attrs × Nat)
+    (h : ∀ v', ov = some v' → v'.isList = false) :
+    attrIds (pushEntry k m ov q).1 = attrIds q.1 ∧ (pushEntry k m ov q).2 = q.2 := by
+  cases ov with
+  | none => simp [pushEntry]
+  | some v' =>
+    have := h v' rfl
+    cases v' <;> simp_all [pushEntry, attrIds, AVal.isList]
+
 /-! ### shape -/
 
-theorem eraseAttrs_copyAttrs (n : Nat) (l : List (PStr × AVal)) : eraseAttrs (copyAttrs n l).1 = eraseAttrs l := by
+theorem eraseAttrs_copyAttrsPlain (n : Nat) (l : Attrs) : eraseAttrs (copyAttrsPlain n l).1 = eraseAttrs l := by
   induction l generalizing n with
-  | nil => simp [copyAttrs, eraseAttrs]
-  | cons kv r ih =>
-    obtain ⟨k, v⟩ := kv
+  | nil => simp [copyAttrsPlain, eraseAttrs]
+  | cons e r ih =>
+    obtain ⟨k, m, v⟩ := e
     cases v with
-    | str s =>
-      have := ih n
-      simp only [eraseAttrs] at this
-      simp [copyAttrs, eraseAttrs, this]
     | list lid c items =>
       have := ih (n + 1)
       simp only [eraseAttrs] at this
-      simp only [copyAttrs, eraseAttrs, List.map_cons, this]
+      simp only [copyAttrsPlain, eraseAttrs, List.map_cons, this]
       simp [AVal.erase]
+    | _ =>
+      have := ih n
+      simp only [eraseAttrs] at this
+      simp only [copyAttrsPlain, eraseAttrs, List.map_cons, this]
 
 theorem isXml_copySelf (n : Nat) (d : TagData) (inh inh' : Option Bool) (h : inh = none → inh' = none) :
     isXml inh' (copySelf n d (isXml inh d)).2.1 = isXml inh d := by
@@ -94,36 +189,50 @@ theorem isXml_copySelf (n : Nat) (d : TagData) (inh inh' : Option Bool) (h : inh
     | none => simp [h rfl]
     | some b => simp
 
-theorem shapeData_copySelf (n : Nat) (d : TagData) (xml x : Option Bool) :
+theorem shapeData_copySelf (n : Nat) (d : TagData) (xml x : Option Bool) (hs : Settled d.dictCls d.attrs) :
     shapeData (copySelf n d xml).2.1 x = shapeData d x := by
-  simp [shapeData, copySelf, eraseAttrs_copyAttrs]
+  simp [shapeData, copySelf, copyAttrs_settled _ _ _ hs, eraseAttrs_copyAttrsPlain]
 
 mutual
-theorem shape_copySpec : ∀ (t : Node) (inh inh' : Option Bool) (n : Nat), (inh = none → inh' = none) →
+/-- every attribute dict of the tree is settled -/
+def SettledN : Node → Prop
+  | .str _ _ _ => True
+  | .tag _ d ks => Settled d.dictCls d.attrs ∧ SettledL ks
+def SettledL : List Node → Prop
+  | [] => True
+  | k :: ks => SettledN k ∧ SettledL ks
+end
+
+mutual
+theorem shape_copySpec : ∀ (t : Node) (inh inh' : Option Bool) (n : Nat), SettledN t → (inh = none → inh' = none) →
     shape inh' (copySpec inh n t).1 = shape inh t
-  | .str i c v, inh, inh', n, _ => by simp [copySpec, shape]
-  | .tag i d ks, inh, inh', n, h => by
+  | .str i c v, inh, inh', n, _, _ => by simp [copySpec, shape]
+  | .tag i d ks, inh, inh', n, hs, h => by
+    simp only [SettledN] at hs
     simp only [copySpec, shape]
-    rw [isXml_copySelf n d inh inh' h, shapeData_copySelf, shapeL_copySpecL ks (isXml inh d) _]
-theorem shapeL_copySpecL : ∀ (ks : List Node) (inh : Option Bool) (n : Nat),
+    rw [isXml_copySelf n d inh inh' h, shapeData_copySelf _ _ _ _ hs.1, shapeL_copySpecL ks (isXml inh d) _ hs.2]
+theorem shapeL_copySpecL : ∀ (ks : List Node) (inh : Option Bool) (n : Nat), SettledL ks →
     shapeL inh (copySpecL inh n ks).1 = shapeL inh ks
-  | [], inh, n => by simp [copySpecL, shapeL]
-  | k :: ks, inh, n => by
+  | [], inh, n, _ => by simp [copySpecL, shapeL]
+  | k :: ks, inh, n, hs => by
+    simp only [SettledL] at hs
     simp only [copySpecL, shapeL]
-    rw [shape_copySpec k inh inh n (fun h => h), shapeL_copySpecL ks inh _]
+    rw [shape_copySpec k inh inh n hs.1 (fun h => h), shapeL_copySpecL ks inh _ hs.2]
 end
 
 /-! ### identities of the copy: exactly the next unused ids, in pre-order -/
 
-theorem attrIds_copyAttrs (n : Nat) (l : List (PStr × AVal)) :
-    attrIds (copyAttrs n l).1 = List.range' n (attrIds (copyAttrs n l).1).length ∧
-    (copyAttrs n l).2 = n + (attrIds (copyAttrs n l).1).length := by
+theorem attrIds_copyAttrs (cls n : Nat) (l : Attrs) :
+    attrIds (copyAttrs cls n l).1 = List.range' n (attrIds (copyAttrs cls n l).1).length ∧
+    (copyAttrs cls n l).2 = n + (attrIds (copyAttrs cls n l).1).length := by
   induction l generalizing n with
   | nil => simp [copyAttrs, attrIds]
-  | cons kv r ih =>
-    obtain ⟨k, v⟩ := kv
+  | cons e r ih =>
+    obtain ⟨k, m, v⟩ := e
+    have hnl : v.isList = false → attrIds (pushEntry k m (coerce cls k m v) (copyAttrs cls n r)).1 = attrIds (copyAttrs cls n r).1 ∧
+        (pushEntry k m (coerce cls k m v) (copyAttrs cls n r)).2 = (copyAttrs cls n r).2 :=
+      fun hv => attrIds_pushEntry k m _ _ (fun v' hc => coerce_nonlist hc hv)
     cases v with
-    | str s => simpa [copyAttrs, attrIds] using ih n
     | list lid c items =>
       obtain ⟨h1, h2⟩ := ih (n + 1)
       constructor
@@ -131,6 +240,10 @@ theorem attrIds_copyAttrs (n : Nat) (l : List (PStr × AVal)) :
         rw [← h1]
       · simp only [copyAttrs, attrIds, List.length_cons]
         omega
+    | str c s => obtain ⟨a, b⟩ := hnl rfl; simp only [copyAttrs]; rw [a, b]; exact ih n
+    | int x => obtain ⟨a, b⟩ := hnl rfl; simp only [copyAttrs]; rw [a, b]; exact ih n
+    | bool x => obtain ⟨a, b⟩ := hnl rfl; simp only [copyAttrs]; rw [a, b]; exact ih n
+    | none => obtain ⟨a, b⟩ := hnl rfl; simp only [copyAttrs]; rw [a, b]; exact ih n
 
 theorem range'_glue {l1 l2 : List Nat} {n m : Nat} (h1 : l1 = List.range' n l1.length) (hm : m = n + l1.length)
     (h2 : l2 = List.range' m l2.length) : l1 ++ l2 = List.range' n (l1 ++ l2).length := by
@@ -145,8 +258,8 @@ theorem ids_copySpec : ∀ (t : Node) (inh : Option Bool) (n : Nat),
     (copySpec inh n t).2 = n + (ids (copySpec inh n t).1).length
   | .str i c v, inh, n => by simp [copySpec, ids]
   | .tag i d ks, inh, n => by
-    obtain ⟨a1, a2⟩ := attrIds_copyAttrs (n + 1) d.attrs
-    obtain ⟨k1, k2⟩ := idsL_copySpecL ks (isXml inh d) (copyAttrs (n + 1) d.attrs).2
+    obtain ⟨a1, a2⟩ := attrIds_copyAttrs d.dictCls (n + 1) d.attrs
+    obtain ⟨k1, k2⟩ := idsL_copySpecL ks (isXml inh d) (copyAttrs d.dictCls (n + 1) d.attrs).2
     have hg := range'_glue a1 a2 k1
     simp only [copySpec, ids, copySelf] at *
     constructor
